@@ -219,43 +219,68 @@ struct Universe {
     /// pairs (direct, via re-export) naming the same procedure
     aliases: Vec<((String, String, String), (String, String, String))>,
     kernel: Option<String>,
+    /// what executing an exported procedure adds to the accumulator on top of the stack:
+    /// "module path::name" -> sum of the constants of every body executed through exec / call
+    sums: std::collections::BTreeMap<String, u64>,
 }
 
 fn body(ch: &mut Ch, salt: u64) -> String {
     // depth-neutral, never failing, distinct per salt
+    // the first two instructions add the procedure's own constant to the accumulator on top of the
+    // stack; the rest leaves it alone
     let mut s = format!("push.{} add ", 1000 + salt);
     for _ in 0..ch.pick(4) {
-        s.push_str(["swap ", "neg ", "push.3 mul ", "push.7 drop ", "dup drop "][ch.pick(5)]);
+        s.push_str(["swap swap ", "neg neg ", "push.1 mul ", "push.7 drop ", "dup drop "][ch.pick(5)]);
     }
     s
 }
 
 fn universe(ch: &mut Ch) -> Universe {
-    let mut u = Universe { libs: vec![], exports: vec![], aliases: vec![], kernel: None };
+    let mut u = Universe { libs: vec![], exports: vec![], aliases: vec![], kernel: None, sums: Default::default() };
     let mut salt = 0u64;
     // library la: m0 (base), m1 (uses m0, re-exports)
     let n0 = 1 + ch.pick(3);
     let mut m0 = String::new();
     // a chain of non-exported procedures reached through exec / call / procref at every level
-    let inv = |ch: &mut Ch, target: &str| -> String {
+    // returns the text and whether the target is executed (procref only pushes its hash)
+    let inv = |ch: &mut Ch, target: &str| -> (String, bool) {
         match ch.pick(3) {
-            0 => format!("exec.{target} "),
-            1 => format!("call.{target} "),
-            _ => format!("procref.{target} dropw "),
+            0 => (format!("exec.{target} "), true),
+            1 => (format!("call.{target} "), true),
+            _ => (format!("procref.{target} dropw "), false),
         }
     };
-    m0.push_str("proc.hidden3 push.9 drop end\n");
-    m0.push_str(&format!("proc.hidden2 push.6 drop {}end\n", inv(ch, "hidden3")));
-    m0.push_str(&format!("proc.hidden push.5 drop {}end\n", inv(ch, "hidden2")));
+    // the hidden chain adds 300 + 20 + 1 when all three levels are executed
+    let (t3, e3) = inv(ch, "hidden3");
+    let (t2, e2) = inv(ch, "hidden2");
+    m0.push_str("proc.hidden3 push.1 add end\n");
+    m0.push_str(&format!("proc.hidden2 push.20 add {}end\n", t3));
+    m0.push_str(&format!("proc.hidden push.300 add {}end\n", t2));
+    let hidden2_sum = 20 + if e3 { 1 } else { 0 };
+    let hidden_sum = 300 + if e2 { hidden2_sum } else { 0 };
     for i in 0..n0 {
         salt += 1;
         let loc = if ch.chance(1, 3) { ".2" } else { "" };
         let extra = if loc.is_empty() { String::new() } else { "push.1.2.3.4 loc_storew.1 dropw ".to_string() };
+        let mut own = 1000 + salt;
         let callee = if i > 0 && ch.chance(1, 2) {
-            let t = format!("p{}", ch.pick(i));
-            inv(ch, &t)
-        } else if ch.chance(1, 2) { inv(ch, "hidden") } else { String::new() };
+            let j = ch.pick(i);
+            let (t, ex) = inv(ch, &format!("p{j}"));
+            if ex {
+                own += u.sums[&format!("la::m0::p{j}")];
+            }
+            t
+        } else if ch.chance(1, 2) {
+            let (t, ex) = inv(ch, "hidden");
+            if ex {
+                own += hidden_sum;
+            }
+            t
+        } else {
+            String::new()
+        };
         m0.push_str(&format!("export.p{i}{loc}\n {}{}{}\nend\n", extra, body(ch, salt), callee));
+        u.sums.insert(format!("la::m0::p{i}"), own);
         u.exports.push(("la::m0".into(), "m0".into(), format!("p{i}")));
     }
     let mut m1 = String::from("use.la::m0\n");
@@ -263,13 +288,24 @@ fn universe(ch: &mut Ch) -> Universe {
     m1.push_str(&format!("export.m0::p{re}->rp\n"));
     u.aliases.push((("la::m0".into(), "m0".into(), format!("p{re}")), ("la::m1".into(), "m1".into(), "rp".into())));
     u.exports.push(("la::m1".into(), "m1".into(), "rp".into()));
+    u.sums.insert("la::m1::rp".into(), u.sums[&format!("la::m0::p{re}")]);
     let n1 = 1 + ch.pick(3);
     for i in 0..n1 {
         salt += 1;
         let kind = ["exec", "call", "procref"][ch.pick(3)];
         let tgt = ch.pick(n0);
         let tail = if kind == "procref" { "dropw " } else { "" };
-        m1.push_str(&format!("export.q{i}\n {} {kind}.m0::p{tgt} {tail}\nend\n", body(ch, salt)));
+        let mut own = 1000 + salt + if kind == "procref" { 0 } else { u.sums[&format!("la::m0::p{tgt}")] };
+        // local procedures of a module that starts with a re-export also invoke each other
+        let local = if i > 0 && ch.chance(1, 2) {
+            let j = ch.pick(i);
+            own += u.sums[&format!("la::m1::q{j}")];
+            format!("exec.q{j} ")
+        } else {
+            String::new()
+        };
+        m1.push_str(&format!("export.q{i}\n {} {kind}.m0::p{tgt} {tail}{local}\nend\n", body(ch, salt)));
+        u.sums.insert(format!("la::m1::q{i}"), own);
         u.exports.push(("la::m1".into(), "m1".into(), format!("q{i}")));
     }
     u.libs.push(("la".into(), vec![("la::m0".into(), m0), ("la::m1".into(), m1)]));
@@ -279,10 +315,13 @@ fn universe(ch: &mut Ch) -> Universe {
         n.push_str("export.m1::rp->rrp\n");
         u.aliases.push((u.aliases[0].0.clone(), ("lb::n0".into(), "n0".into(), "rrp".into())));
         u.exports.push(("lb::n0".into(), "n0".into(), "rrp".into()));
+        u.sums.insert("lb::n0::rrp".into(), u.sums["la::m1::rp"]);
         let k = 1 + ch.pick(2);
         for i in 0..k {
             salt += 1;
-            n.push_str(&format!("export.r{i}\n {} exec.m1::q{} call.base::p{}\nend\n", body(ch, salt), ch.pick(n1), ch.pick(n0)));
+            let (qi, pi) = (ch.pick(n1), ch.pick(n0));
+            n.push_str(&format!("export.r{i}\n {} exec.m1::q{} call.base::p{}\nend\n", body(ch, salt), qi, pi));
+            u.sums.insert(format!("lb::n0::r{i}"), 1000 + salt + u.sums[&format!("la::m1::q{qi}")] + u.sums[&format!("la::m0::p{pi}")]);
             u.exports.push(("lb::n0".into(), "n0".into(), format!("r{i}")));
         }
         u.libs.push(("lb".into(), vec![("lb::n0".into(), n)]));
@@ -294,12 +333,22 @@ fn universe(ch: &mut Ch) -> Universe {
 }
 
 fn program_src(ch: &mut Ch, u: &Universe, salt: u64, variant_alias: Option<bool>) -> String {
+    program_src_sum(ch, u, salt, variant_alias).0
+}
+
+/// the program and what it leaves in the accumulator on top of the stack (starting from 0): the
+/// sum of the constants of every procedure body executed through exec / call (dynexec / dyncall run
+/// their target on top of the pushed hash, which is dropped afterwards; syscalls add nothing)
+fn program_src_sum(ch: &mut Ch, u: &Universe, salt: u64, variant_alias: Option<bool>) -> (String, u64) {
+    let mut expected = 0u64;
     let mut imports: Vec<(String, String)> = vec![];
     let mut main = String::new();
     let mut procs = String::new();
     let nl = ch.pick(3);
+    let mut local_sum = vec![];
     for i in 0..nl {
         procs.push_str(&format!("proc.l{i}\n {}\nend\n", body(ch, salt * 100 + i as u64)));
+        local_sum.push(1000 + salt * 100 + i as u64);
     }
     let steps = 1 + ch.pick(7);
     for _ in 0..steps {
@@ -311,8 +360,11 @@ fn program_src(ch: &mut Ch, u: &Universe, salt: u64, variant_alias: Option<bool>
             continue;
         }
         let use_local = nl > 0 && ch.chance(1, 3);
+        let mut target_sum = 0u64;
         let target = if use_local {
-            format!("l{}", ch.pick(nl))
+            let li = ch.pick(nl);
+            target_sum = local_sum[li];
+            format!("l{}", li)
         } else {
             let (path, alias, name) = match (variant_alias, u.aliases.first()) {
                 // the variant pair: the same procedure once directly, once through its re-export
@@ -328,8 +380,12 @@ fn program_src(ch: &mut Ch, u: &Universe, salt: u64, variant_alias: Option<bool>
             if !imports.iter().any(|(p, _)| *p == path) {
                 imports.push((path.clone(), alias.clone()));
             }
+            target_sum = u.sums.get(&format!("{path}::{name}")).copied().unwrap_or(0);
             format!("{alias}::{name}")
         };
+        if matches!(kind, "exec" | "call") {
+            expected += target_sum;
+        }
         match kind {
             "exec" => main.push_str(&format!("exec.{target} ")),
             "call" => main.push_str(&format!("call.{target} ")),
@@ -346,7 +402,7 @@ fn program_src(ch: &mut Ch, u: &Universe, salt: u64, variant_alias: Option<bool>
     }
     s.push_str(&procs);
     s.push_str(&format!("begin\n {main}\nend\n"));
-    s
+    (s, expected)
 }
 
 fn build_libs(u: &Universe) -> Result<Vec<MaslLibrary>, String> {
@@ -416,14 +472,18 @@ pub fn check_history(choices: &Vec<u16>) -> Out {
     let n = 1 + ch.pick(12);
     let invalid = invalid_sources();
     let mut history: Vec<String> = vec![];
+    let mut expected_sums: Vec<Option<u64>> = vec![];
     for i in 0..n {
         if ch.chance(1, 4) {
             history.push(invalid[ch.pick(invalid.len())].1.clone());
+            expected_sums.push(None);
         } else {
-            history.push(program_src(&mut ch, &u, i as u64 + 1, None));
+            let (src, sum) = program_src_sum(&mut ch, &u, i as u64 + 1, None);
+            history.push(src);
+            expected_sums.push(Some(sum));
         }
     }
-    let cj = |i: usize| json!({"libs": u.libs, "kernel": u.kernel, "history": history, "step": i});
+    let cj = |i: usize| json!({"libs": u.libs, "kernel": u.kernel, "history": history, "step": i, "expected_accumulator": expected_sums});
     let shared = fresh(&u, &libs, false).map_err(|e| Viol::new("C11:universe", e, cj(0)))?;
     let mut valid = 0;
     let mut classes = vec![];
@@ -453,7 +513,20 @@ pub fn check_history(choices: &Vec<u16>) -> Out {
             }
             let case = vm::Case::default();
             match vm::run(p, &case, ExecutionOptions::default()) {
-                vm::Ran::Ok(..) => {}
+                vm::Ran::Ok(t, _) => {
+                    // every procedure body adds its own constant: the total tells whether the
+                    // procedures that ran are the ones the source names
+                    if let Some(want) = expected_sums[i] {
+                        let got = vm::outputs_top_first(&t)[0];
+                        if got != want {
+                            return Err(Viol::new(
+                                "C11:wrong-procedure-executed",
+                                format!("compilation #{i}: the program leaves {got} in the accumulator, the procedures it names add up to {want}"),
+                                cj(i),
+                            ));
+                        }
+                    }
+                }
                 vm::Ran::Err(e, _) => {
                     let sig = match e {
                         ExecutionError::CodeBlockNotFound(_) | ExecutionError::DynamicCodeBlockNotFound(_) => "C11:body-missing-at-run-time",
@@ -530,6 +603,36 @@ pub fn check_history(choices: &Vec<u16>) -> Out {
     Ok(Info { nontrivial: if n >= 2 || valid < n { Some(fp_str(&history.join("|"))) } else { None }, classes, sample: Some(json!({"history": history.iter().take(3).collect::<Vec<_>>(), "libs": u.libs.len()})), evals: n as u64, soft, ..Info::default() })
 }
 
+/// One program over a generated universe of libraries (modules with re-exports, local and imported
+/// exec / call / procref chains), assembled on a fresh assembler and executed: every procedure
+/// body adds its own constant to an accumulator, so the final value tells whether exactly the
+/// procedures the source names were executed. Used by C06 (exec of local and imported procedures
+/// behaves like the pasted body). Returns (source, libraries) for the evidence sample.
+pub fn check_accumulator(choices: &Vec<u16>, prop: &str) -> Result<(String, usize), Viol> {
+    let mut ch = Ch::new(choices);
+    let u = universe(&mut ch);
+    let libs = build_libs(&u).map_err(|e| Viol::new(format!("{prop}:universe"), format!("generated library does not build: {e}"), json!({"libs": u.libs})))?;
+    let (src, want) = program_src_sum(&mut ch, &u, 1, None);
+    let cj = || json!({"libs": u.libs, "kernel": u.kernel, "history": [src.clone()], "step": 0, "expected_accumulator": [want], "must_assemble": true});
+    let a = fresh(&u, &libs, false).map_err(|e| Viol::new(format!("{prop}:universe"), e, cj()))?;
+    let p = match vm::catch(|| a.compile(&src).map_err(|e| format!("{e}"))) {
+        Err(pn) => return Err(Viol::new(format!("{prop}:asm-panic:{}", crate::diff::panic_site(&pn)), pn, cj())),
+        Ok(Err(e)) => return Err(Viol::new(format!("{prop}:imported-procedures:does-not-assemble"), format!("a program that only names existing procedures does not assemble: {e}"), cj())),
+        Ok(Ok(p)) => p,
+    };
+    match vm::run(&p, &vm::Case::default(), ExecutionOptions::default()) {
+        vm::Ran::Ok(t, _) => {
+            let got = vm::outputs_top_first(&t)[0];
+            if got != want {
+                return Err(Viol::new(format!("{prop}:imported-procedures:wrong-procedure-executed"), format!("the program leaves {got} in the accumulator, the bodies of the procedures it names add up to {want}"), cj()));
+            }
+            Ok((src, u.libs.len()))
+        }
+        vm::Ran::Err(e, _) => Err(Viol::new(format!("{prop}:imported-procedures:execution-fails"), format!("{e}"), cj())),
+        vm::Ran::Panic(pn) => Err(Viol::new(format!("{prop}:exec-panic"), pn, cj())),
+    }
+}
+
 /// the same program with one procedure reached directly or through a (re-)re-export
 pub fn check_reexport(choices: &Vec<u16>) -> Out {
     let mut ch = Ch::new(choices);
@@ -575,14 +678,19 @@ pub fn replay(ctx: &Ctx, v: &serde_json::Value) {
             .as_array()
             .map(|a| a.iter().map(|l| (l[0].as_str().unwrap_or("").to_string(), l[1].as_array().unwrap().iter().map(|m| (m[0].as_str().unwrap().to_string(), m[1].as_str().unwrap().to_string())).collect())).collect())
             .unwrap_or_default();
-        let u = Universe { libs: libs_src, exports: vec![], aliases: vec![], kernel: c["kernel"].as_str().map(|s| s.to_string()) };
+        let u = Universe { libs: libs_src, exports: vec![], aliases: vec![], kernel: c["kernel"].as_str().map(|s| s.to_string()), sums: Default::default() };
         let libs = build_libs(&u).map_err(|e| Viol::new("C11:universe", e, c.clone()))?;
         let sig = v["signature"].as_str().unwrap_or("C11:replay");
         if let Some(h) = c["history"].as_array() {
             let shared = fresh(&u, &libs, false).map_err(|e| Viol::new("C11:universe", e, c.clone()))?;
-            for s in h {
+            for (step, s) in h.iter().enumerate() {
                 let src = s.as_str().unwrap_or("");
                 let a = vm::catch(|| shared.compile(src).map_err(|e| format!("{e}"))).map_err(|p| Viol::new(sig, p, c.clone()))?;
+                if c["must_assemble"].as_bool() == Some(true) {
+                    if let Err(e) = &a {
+                        return Err(Viol::new(sig, format!("does not assemble: {e}"), c.clone()));
+                    }
+                }
                 let f = fresh(&u, &libs, false).map_err(|e| Viol::new("C11:universe", e, c.clone()))?;
                 let b = vm::catch(|| f.compile(src).map_err(|e| format!("{e}"))).map_err(|p| Viol::new(sig, p, c.clone()))?;
                 if summary(&a) != summary(&b) {
@@ -601,8 +709,17 @@ pub fn replay(ctx: &Ctx, v: &serde_json::Value) {
                     if t.iter().any(|x| x.starts_with("missing:")) {
                         return Err(Viol::new(sig, "call target missing", c.clone()));
                     }
-                    if let vm::Ran::Err(e, _) = vm::run(p, &vm::Case::default(), ExecutionOptions::default()) {
-                        return Err(Viol::new(sig, format!("{e}"), c.clone()));
+                    match vm::run(p, &vm::Case::default(), ExecutionOptions::default()) {
+                        vm::Ran::Err(e, _) => return Err(Viol::new(sig, format!("{e}"), c.clone())),
+                        vm::Ran::Ok(t, _) => {
+                            if let Some(want) = c["expected_accumulator"].get(step).and_then(|x| x.as_u64()) {
+                                let got = vm::outputs_top_first(&t)[0];
+                                if got != want {
+                                    return Err(Viol::new(sig, format!("accumulator {got}, expected {want}"), c.clone()));
+                                }
+                            }
+                        }
+                        vm::Ran::Panic(pn) => return Err(Viol::new(sig, pn, c.clone())),
                     }
                 }
             }
